@@ -745,18 +745,24 @@ class HealSparseMap(object):
             # not need to use ufunc.at() to perform operations.
             if operation == "replace":
                 sparse_map[start: stop] = value
+            elif operation == "zero_unset":
+                sparse_map[start: stop][sparse_map[start: stop] == self._sentinel] = 0
             elif operation == "add":
-                # Put in a check to reset uncovered pixels to 0
-                if self._sentinel != 0:
-                    sparse_map[start: stop][sparse_map[start: stop] == self._sentinel] = 0
                 sparse_map[start: stop] += value
             elif operation == "or":
                 sparse_map[start: stop] |= value
             elif operation == "and":
                 sparse_map[start: stop] &= value
 
+        if operation == "add" and self._sentinel != 0:
+            # Unset pixels count as 0.  They are reset in a pass of their own, before anything
+            # is added: with overlapping ranges a running sum may pass through the sentinel.
+            operations = ["zero_unset", "add"]
+        else:
+            operations = [operation]
+
         # Loop over ranges.
-        for i in range(pixel_ranges.shape[0]):
+        for operation, i in ((op, j) for op in operations for j in range(pixel_ranges.shape[0])):
             if delta_covpix[i] > 0:
                 # This range overlaps multiple coverage pixels.
                 if no_append and not cov_mask[cov_pix_ranges[i, 0]]:
